@@ -46,9 +46,11 @@ T_OCTET    == <<97, 112, 112, 108, 105, 99, 97, 116, 105, 111, 110, 47, 111, 99,
 (* ====================================================================== *)
 (* The reference encoder                                                  *)
 (* ====================================================================== *)
-(* A part is [name, fkind, fname, ctype, hv, content]:
+(* A part is [name, fkind, fname, fback, ctype, hv, content]:
      name    field name, code points
-     fkind   0 no filename, 1 plain quoted filename, 2 RFC 5987 extended (filename*=UTF-8''..)
+     fkind   0 no filename, 1 plain quoted filename, 2 RFC 5987 extended (filename*=UTF-8''..),
+             3 both: plain fallback first, then the extended one; 4 both, the extended one first
+     fback   the plain fallback sent next to the extended name (fkind 3, 4), code points
      fname   file name, code points
      ctype   Content-Type value (bytes) or NONE for "no such header"
      hv      header rendering: 0 canonical, 1 lower-case field names, 2 a foreign header
@@ -83,12 +85,15 @@ Unquote(q) == LET K == SelectSeq([i \in 1..Len(q) |-> i], LAMBDA i : ~(q[i] = 92
               IN  [k \in 1..Len(K) |-> q[K[k]]]
 
 PartOk(p) == /\ QuotableText(p.name) /\ QuotableText(p.fname)
-             /\ (p.fkind = 2 => p.fname # <<>>)
+             /\ (p.fkind \in {2, 3, 4} => p.fname # <<>>)
              /\ (p.fkind = 0 => p.fname = <<>>)
+             /\ QuotableText(p.fback) /\ (p.fkind \notin {3, 4} => p.fback = <<>>)
 
 EncDisp(p) == V_FD \o Utf8Seq(Quote(p.name)) \o QUOTE
               \o (CASE p.fkind = 1 -> V_FILE \o Utf8Seq(Quote(p.fname)) \o QUOTE
                     [] p.fkind = 2 -> V_STAR \o PctSeq(Utf8Seq(p.fname))
+                    [] p.fkind = 3 -> V_FILE \o Utf8Seq(Quote(p.fback)) \o QUOTE \o V_STAR \o PctSeq(Utf8Seq(p.fname))
+                    [] p.fkind = 4 -> V_STAR \o PctSeq(Utf8Seq(p.fname)) \o V_FILE \o Utf8Seq(Quote(p.fback)) \o QUOTE
                     [] OTHER -> <<>>)
 
 EncHeaders(p) ==
@@ -178,8 +183,7 @@ Advance(B, b, p, pro, y, lm) ==
 (* ====================================================================== *)
 (* What the accessors of a yielded part must report                        *)
 (* ====================================================================== *)
-KnownTypes == {NONE, T_PLAIN, T_PLAIN_CS, T_JSON, T_OCTET}
-IsTextPlain(ct) == ct = NONE \/ ct = T_PLAIN \/ ct = T_PLAIN_CS
+V_CHARSET == <<59, 32, 99, 104, 97, 114, 115, 101, 116, 61>>                     \* ; charset=
 CTypeOf(hdr) == LET v == HeaderVal(hdr, H_CTYPE_LC) IN IF v = NONE THEN T_PLAIN ELSE v     \* RFC 7578, 4.4 default
 
 (* name / filename / content type as the accessors must report them.  A Content-Disposition value the
@@ -192,6 +196,7 @@ CTypeOf(hdr) == LET v == HeaderVal(hdr, H_CTYPE_LC) IN IF v = NONE THEN T_PLAIN 
 UNKNOWN == <<-2>>
 DispIndex(form, v) ==
     LET I == {i \in 1..Len(form) : EncDisp(form[i]) = v} IN IF I = {} THEN 0 ELSE CHOOSE i \in I : TRUE
+(* RFC 6266, 4.3: when both forms are present the extended one is the file name, in either order *)
 FNameOf(p) == IF p.fkind = 0 THEN NONE ELSE p.fname
 (* well-formed UTF-8 (Unicode 15, table 3-7): shortest forms only, no surrogates, <= U+10FFFF.
    Text is represented by its UTF-8 encoding, so "decodes to t" reads "is well formed and equals
@@ -277,6 +282,22 @@ FieldsOf(form, hdr) ==
           THEN LET p == form[CHOOSE i \in X : TRUE]      \* name intact, the extended file name was damaged
                IN  [name |-> p.name, fname |-> ExtFilename(Drop(v, Len(ExtPrefix(p))))]
         ELSE [name |-> UNKNOWN, fname |-> UNKNOWN]
+
+(* ---- what get_text() makes of the content type ------------------------------------------------ *)
+(* "utf8"    text/plain, no charset parameter (the default) or one that names UTF-8
+   "bogus"   text/plain; charset=L where L names nothing that can decode: an unknown label, the empty
+             label, a label with an embedded NUL, a label under which not even "" decodes ("undefined")
+             - the content cannot be decoded, so get_text() must raise the parse error
+   "nontext" one of the encoder's other types: get_text() is None
+   "open"    anything else (damaged bodies, other real charsets, values that are not 7-bit) *)
+TextKind(ct) ==
+    IF ct = T_PLAIN THEN "utf8"
+    ELSE IF ct \in {T_JSON, T_OCTET} THEN "nontext"
+    ELSE IF ~IsAscii(ct) \/ ~IsPrefix(T_PLAIN \o V_CHARSET, ct) THEN "open"
+    ELSE LET lab == Drop(ct, Len(T_PLAIN) + Len(V_CHARSET))
+         IN  IF \E i \in 1..Len(lab) : lab[i] = 0 THEN "bogus"
+             ELSE IF \E i \in 1..Len(lab) : ~(WordChar(lab[i]) \/ lab[i] = 45) THEN "open"
+             ELSE IF CharsetClass(lab) \in {"utf8", "bogus"} THEN CharsetClass(lab) ELSE "open"
 
 (* ====================================================================== *)
 (* State machine                                                           *)
@@ -399,24 +420,27 @@ GetData ==
            /\ cache' = (IF r.err THEN NONE ELSE r.res) /\ toolarge' = r.err
 
 (* get_text(): None unless the part is text/plain; otherwise the buffered content decoded with
-   the declared charset (UTF-8 here), the parse error if it does not decode (the content stays
-   buffered).  The text is reported as its UTF-8 encoding. *)
+   the declared charset, the parse error if it does not decode or if the charset names no decoder
+   (the content stays buffered in both cases).  The text is reported as its UTF-8 encoding. *)
+(* (CPython decodes the empty byte string to "" without consulting the codec, so for an empty content
+   under a label that names no decoder both "" and the parse error are accepted: left open) *)
+OpenText == \/ TextKind(CTypeOf(cur)) = "open"
+            \/ (TextKind(CTypeOf(cur)) = "bogus" /\ ~Buffered.err /\ Buffered.res = <<>>)
 GetText ==
-    /\ CanConsume /\ CTypeOf(cur) \in KnownTypes
-    /\ IF ~IsTextPlain(CTypeOf(cur))
+    /\ CanConsume /\ ~OpenText
+    /\ IF TextKind(CTypeOf(cur)) = "nontext"
          THEN Consumed("get_text", -1, <<>>, FALSE, "none", "", <<>>, pos) /\ UNCHANGED <<cache, toolarge>>
          ELSE LET r  == Buffered
-                  ok == ~r.err /\ Utf8Valid(r.res)
+                  ok == ~r.err /\ TextKind(CTypeOf(cur)) = "utf8" /\ Utf8Valid(r.res)
               IN  /\ Consumed("get_text", -1, <<>>, FALSE, IF ok THEN "ok" ELSE "error",
                               IF r.err THEN "size" ELSE IF ok THEN "" ELSE "text",
                               IF ok THEN r.res ELSE <<>>, r.pos)
                   /\ cache' = (IF r.err THEN NONE ELSE r.res) /\ toolarge' = r.err
 
-(* get_text() on a part whose Content-Type is not one of the encoder's (only possible for damaged
-   bodies: an unknown type, an unknown charset, bytes that are not ASCII): the outcome is left open
-   - None, text or the parse error - but it must be one of these; the part is not touched again. *)
+(* get_text() on a part whose content type is "open": the outcome is left open - None, text or the
+   parse error - but it must be one of these; the part is not touched again. *)
 GetTextOpen ==
-    /\ CanConsume /\ CTypeOf(cur) \notin KnownTypes
+    /\ CanConsume /\ OpenText
     /\ pos' = pos /\ nops' = MaxOps + MaxRetry
     /\ last' = Plain("get_text", -1, <<>>, FALSE, "open", "", <<>>)
     /\ UNCHANGED <<form, env, lim, body, edited, st, pro, yielded, cur, pstart, pend, cache, toolarge>>
